@@ -15,7 +15,7 @@ import (
 //vf:thorough unwind=60 decisions=900 paths=20000000 arith=bv steps=12000000
 //vf:expect reach=accepted reach=rejected
 func VerifC16_ParserTotal() {
-	n := vfChoice("len", 5+2*vfTier()) // 0..4 (quick), 0..6 (thorough)
+	n := vfChoice("len", 5+vfTier()) // 0..4 (quick), 0..5 (thorough)
 	input := vfString("in", n)
 	p := parser{lexer: lexer{input: input}}
 	ms, err := p.parse()
@@ -42,7 +42,7 @@ func VerifC16_RoundTrip() {
 	op := labels.MatchType(vfChoice("op", 4))
 	var val string
 	if op == labels.MatchEqual || op == labels.MatchNotEqual {
-		n := vfChoice("len", 5+2*vfTier()) // value length 0..4 (quick), 0..6 (thorough)
+		n := vfChoice("len", 5+vfTier()) // value length 0..4 (quick), 0..5 (thorough)
 		val = vfString("val", n)
 		vfAssume(utf8.ValidString(val))
 	} else {
